@@ -850,6 +850,10 @@ def correspondence(ctx):
             ctx.count("path:complex-modes")
         impl = (sol.d, sol.v, sol.a)
         if not all(np.isfinite(c).all() for c in impl):
+            if all(np.isfinite(c).all() for c in model):
+                # the model (same formulas, same data) is finite: the dynamic stiffness is not singular here
+                ctx.disagree(tag + "-non-finite", spec, "non-finite entries in d, v or a", "a finite response")
+                continue
             ctx.skip("non-finite response (singular dynamic stiffness at a requested frequency)")
             continue
         # float32 matrices: the implementation keeps single-precision reciprocals / LU factors
@@ -1241,6 +1245,30 @@ def _rel(res, *terms):
     return float(abs(res).max(initial=0.0)) / max(sc, 1e-300)
 
 
+def _singular_somewhere(spec, M, B, K, freq):
+    """is some dynamic stiffness the solver has to invert (numerically) singular at a requested frequency?"""
+    if spec["pre_eig"] or not spec["cls"]:
+        blocks = [list(range(M.shape[0]))] if not spec["rf"] else [[i for i in range(M.shape[0]) if i not in spec["rf"]]]
+        zero_ok = False
+    else:
+        cls = spec["cls"]
+        rb, el = _idx(cls, "rb"), _idx(cls, "el")
+        if spec["solver"] == "fd":
+            blocks, zero_ok = [sorted(rb + el)], False
+        else:
+            blocks, zero_ok = [el, rb], True  # SolveUnc: 0 Hz on the rigid-body block is the documented convention
+    for f in freq:
+        W = 2 * np.pi * f
+        for bi, blk in enumerate(blocks):
+            if not blk or (zero_ok and bi == 1 and (W == 0 or not _rb_damped(spec))):
+                continue
+            H = -W * W * M[np.ix_(blk, blk)] + 1j * W * B[np.ix_(blk, blk)] + (K[np.ix_(blk, blk)] if not (zero_ok and bi == 1) else 0)
+            with np.errstate(all="ignore"):
+                if not np.isfinite(H).all() or np.linalg.cond(H) > 1e12:
+                    return True
+    return False
+
+
 def _oracle_fsolve(spec, other=None):
     """the property on the public API; returns a list of failure dicts (model-free)"""
     out = []
@@ -1267,7 +1295,15 @@ def _oracle_fsolve(spec, other=None):
     if not isinstance(inc, str):
         inc = {0: "", 1: "va", 2: "dva"}[inc]
     if not all(np.isfinite(c).all() for c in (d, v, a)):
-        return out  # singular dynamic stiffness at a requested frequency: outside the domain
+        # outside the domain only if a dynamic stiffness really is singular at a requested frequency
+        if not _singular_somewhere(spec, M, B, K, freq):
+            zero_hz = bool(spec["solver"] == "su" and 0.0 in spec["freq"] and _rb_damped(spec)
+                           and not np.isfinite(np.asarray(a)[:, np.array(spec["freq"]) == 0.0]).all())
+            fail("fsolve-unc-damped-rigid-body-mode-0Hz-non-finite" if zero_hz else _fam(spec, "non-finite-response"),
+                 "non-finite entries in d, v or a although no dynamic stiffness is singular at the requested frequencies"
+                 + (" (0 Hz with a damped rigid-body mode: the documented convention is a = F/m, v = d = 0)" if zero_hz else ""),
+                 [bool(np.isfinite(c).all()) for c in (d, v, a)], "a finite response")
+        return out
     if spec["pre_eig"]:
         # physical coordinates: the whole equation must hold when nothing is static or left out
         if spec["rf"] or set(inc) != set("dva"):
@@ -1346,7 +1382,14 @@ def _oracle_fsolve(spec, other=None):
                              "rigid-body %s row not exactly zero although excluded by incrb=%r (or W = 0)" % (nm, inc),
                              got.tolist(), "exact zeros")
                 elif _rel(got - w, w) > ORACLE_TOL:
-                    fail(FAM_B if fam_b else fam_damped if (damped_rb and W != 0) else _fam(spec, "rb-%s" % nm),
+                    ignored = False
+                    if damped_rb and W != 0:
+                        # is the observed row the solution *without* the damping (a = M^-1 F)?  then it is F51 / F52
+                        # whatever else is special about the layout
+                        und = np.linalg.solve(Mrb, F[rb, j]) * {"a": 1.0, "v": 1 / (1j * W), "d": -1 / (W * W)}[nm]
+                        ignored = _rel(got - und, und) <= ORACLE_TOL
+                    fail(fam_damped if ignored else FAM_B if fam_b else fam_damped if (damped_rb and W != 0)
+                         else _fam(spec, "rb-%s" % nm),
                          "rigid-body %s row is not the solution of (-W^2 m + iW b) d = F%s" % (
                              nm, " (damped rigid-body mode of an uncoupled system)" if damped_rb else ""),
                          got.tolist(), w.tolist())
@@ -1369,7 +1412,7 @@ def _oracle_fsolve(spec, other=None):
                     if _rel(x - y, x, y) > 10 * ORACLE_TOL:
                         # a disagreement confined to the damped rigid-body rows of an uncoupled system is F51 / F52
                         only_rb = damped_rb and _rel(x[nrb] - y[nrb], x, y) <= 10 * ORACLE_TOL
-                        fail(FAM_B if (fam_b or _in_family_b(other)) else fam_damped if only_rb
+                        fail(fam_damped if only_rb else FAM_B if (fam_b or _in_family_b(other))
                              else _fam(spec, "differs-from-other-solver-%s" % nm),
                              "SolveUnc.fsolve and FreqDirect.fsolve disagree on %s%s" % (
                                  nm, " (rows of the damped rigid-body modes only)" if only_rb else ""),
